@@ -1,5 +1,1180 @@
-//! (stub; being written)
+//! C18: debug info describes the file that was actually written.
+//!
+//! Bounded exhaustive enumeration of small programs per format; each is compiled by the real truth
+//! pipeline (in process; a bounded prefix also through the real CLI), and the debug-info JSON is
+//! compared with facts obtained from the WRITTEN BINARY by the independent M2 walkers plus the
+//! generator's own models (M3 label arithmetic, M6 constant evaluator, sentinel literals for locals).
 #![allow(dead_code)]
-use crate::common::Report;
-pub fn run(tier: &str) -> Report { Report::new("C18", tier, "model_checking") }
-pub fn replay(_detail: &serde_json::Value) -> i32 { 2 }
+
+use std::collections::{BTreeMap, BTreeSet};
+use serde_json::{json, Value};
+use truth::Game;
+
+use crate::common::*;
+use crate::drive::{self, CompileOpts, Kind, Tool};
+use crate::m2;
+use crate::tl::{m1_binop, m1_unop, Val};
+
+// =============================================================================================
+// model of a generated program
+
+/// One event of the flattened script body, in source order.
+#[derive(Clone, Debug, PartialEq)]
+enum Ev {
+    /// a user label with the time M3 gives it
+    Label { name: String, time: i32 },
+    /// a time label (`N:` / `+N:`)
+    Time,
+    /// a statement that emits >= 1 instruction.  `dword`: the first emitted instruction contains this
+    /// unique dword in its argument blob.  `index`: the first emitted instruction is exactly the
+    /// index-th instruction of the script (known only while every earlier statement emits exactly one).
+    Emit { dword: Option<u32>, index: Option<usize> },
+}
+
+#[derive(Clone, Debug, PartialEq)]
+struct LocalM { name: String, float: bool, sentinel: u32, reg_as_float: bool }
+
+#[derive(Clone, Debug, PartialEq)]
+struct ScriptM {
+    name: String,
+    /// "anm" | "std" | "msg" | "sub" | "timeline"
+    skind: String,
+    /// position among the scripts of its kind in file order (ANM: across entries)
+    index: usize,
+    events: Vec<Ev>,
+    locals: Vec<LocalM>,
+    /// (instruction index, const name, float): that instruction is `set reg, <const>`: args dword 1 is the value used
+    const_uses: Vec<(usize, String, bool)>,
+    /// stored instruction times are 16 bit in this script's layout
+    time16: bool,
+}
+
+#[derive(Clone, Debug, PartialEq)]
+struct ConstM { name: String, float: bool, bits: u32 }
+
+#[derive(Clone, Debug)]
+struct Case {
+    family: String,
+    tool: Tool,
+    src: String,
+    scripts: Vec<ScriptM>,
+    consts: Vec<ConstM>,
+}
+
+fn ev_to_json(e: &Ev) -> Value {
+    match e {
+        Ev::Label { name, time } => json!({"label": name, "time": time}),
+        Ev::Time => json!("time"),
+        Ev::Emit { dword, index } => json!({"emit": {"dword": dword, "index": index}}),
+    }
+}
+fn ev_from_json(v: &Value) -> Option<Ev> {
+    if v == "time" { return Some(Ev::Time); }
+    if let Some(l) = v.get("label") { return Some(Ev::Label { name: l.as_str()?.to_string(), time: v["time"].as_i64()? as i32 }); }
+    let e = v.get("emit")?;
+    Some(Ev::Emit { dword: e["dword"].as_u64().map(|x| x as u32), index: e["index"].as_u64().map(|x| x as usize) })
+}
+fn script_to_json(s: &ScriptM) -> Value {
+    json!({
+        "name": s.name, "skind": s.skind, "index": s.index, "time16": s.time16,
+        "events": s.events.iter().map(ev_to_json).collect::<Vec<_>>(),
+        "locals": s.locals.iter().map(|l| json!({"name": l.name, "float": l.float, "sentinel": l.sentinel, "reg_as_float": l.reg_as_float})).collect::<Vec<_>>(),
+        "const_uses": s.const_uses.iter().map(|(i, n, f)| json!([i, n, f])).collect::<Vec<_>>(),
+    })
+}
+fn script_from_json(v: &Value) -> Option<ScriptM> {
+    Some(ScriptM {
+        name: v["name"].as_str()?.to_string(), skind: v["skind"].as_str()?.to_string(), index: v["index"].as_u64()? as usize,
+        time16: v["time16"].as_bool()?,
+        events: v["events"].as_array()?.iter().map(ev_from_json).collect::<Option<Vec<_>>>()?,
+        locals: v["locals"].as_array()?.iter().map(|l| Some(LocalM { name: l["name"].as_str()?.to_string(), float: l["float"].as_bool()?, sentinel: l["sentinel"].as_u64()? as u32, reg_as_float: l["reg_as_float"].as_bool()? })).collect::<Option<Vec<_>>>()?,
+        const_uses: v["const_uses"].as_array()?.iter().map(|c| Some((c[0].as_u64()? as usize, c[1].as_str()?.to_string(), c[2].as_bool()?))).collect::<Option<Vec<_>>>()?,
+    })
+}
+fn kind_name(k: Kind) -> &'static str { match k { Kind::Anm => "Anm", Kind::Std => "Std", Kind::Msg => "Msg", Kind::End => "End", Kind::Mission => "Mission", Kind::Ecl => "Ecl" } }
+fn kind_from(s: &str) -> Option<Kind> { Some(match s { "Anm" => Kind::Anm, "Std" => Kind::Std, "Msg" => Kind::Msg, "Ecl" => Kind::Ecl, _ => return None }) }
+fn case_to_json(c: &Case) -> Value {
+    json!({
+        "family": c.family, "kind": kind_name(c.tool.kind), "game": c.tool.game.as_str(), "src": c.src,
+        "model": {
+            "scripts": c.scripts.iter().map(script_to_json).collect::<Vec<_>>(),
+            "consts": c.consts.iter().map(|k| json!({"name": k.name, "float": k.float, "bits": k.bits})).collect::<Vec<_>>(),
+        },
+    })
+}
+fn case_from_json(v: &Value) -> Option<Case> {
+    Some(Case {
+        family: v["family"].as_str()?.to_string(),
+        tool: Tool::new(kind_from(v["kind"].as_str()?)?, v["game"].as_str()?.parse::<Game>().ok()?),
+        src: v["src"].as_str()?.to_string(),
+        scripts: v["model"]["scripts"].as_array()?.iter().map(script_from_json).collect::<Option<Vec<_>>>()?,
+        consts: v["model"]["consts"].as_array()?.iter().map(|k| Some(ConstM { name: k["name"].as_str()?.to_string(), float: k["float"].as_bool()?, bits: k["bits"].as_u64()? as u32 })).collect::<Option<Vec<_>>>()?,
+    })
+}
+
+// =============================================================================================
+// facts from the written binary (M2)
+
+#[derive(Clone, Debug)]
+struct FScript { start: usize, instrs: Vec<m2::Instr>, terminal: Option<usize> }
+
+struct Walked { anm: Vec<FScript>, std: Option<FScript>, msg_table: Vec<u32>, msg: Vec<FScript>, subs: Vec<FScript>, timelines: Vec<FScript> }
+
+fn walk_file(tool: Tool, bytes: &[u8]) -> Result<Walked, String> {
+    let mut w = Walked { anm: vec![], std: None, msg_table: vec![], msg: vec![], subs: vec![], timelines: vec![] };
+    match tool.kind {
+        Kind::Anm => {
+            for e in m2::walk_anm(bytes, tool.game)? {
+                for s in e.scripts { w.anm.push(FScript { start: s.abs, instrs: s.instrs, terminal: s.terminal.map(|t| t.0) }); }
+            }
+        },
+        Kind::Std => {
+            let s = m2::walk_std(bytes, tool.game)?;
+            w.std = Some(FScript { start: s.script_offset as usize, instrs: s.script, terminal: s.script_terminal.map(|t| t.0) });
+        },
+        Kind::Msg => {
+            let m = m2::walk_msg(bytes, tool.game, false)?;
+            w.msg_table = m.table.iter().map(|t| t.script_offset).collect();
+            for (k, (start, instrs, _)) in m.scripts.into_iter().enumerate() {
+                w.msg.push(FScript { start, instrs, terminal: m.terminals[k].map(|t| t.0) });
+            }
+        },
+        Kind::Ecl => {
+            let e = m2::walk_ecl(bytes, tool.game)?;
+            let st = m2::build_terminal(e.sub_layout).len();
+            let tt = m2::build_terminal(e.timeline_layout).len();
+            for (k, instrs) in e.subs.into_iter().enumerate() {
+                w.subs.push(FScript { start: e.sub_offsets[k] as usize, instrs, terminal: Some(e.sub_ends[k] - st) });
+            }
+            for (k, instrs) in e.timelines.into_iter().enumerate() {
+                w.timelines.push(FScript { start: e.timeline_offsets[k] as usize, instrs, terminal: Some(e.timeline_ends[k] - tt) });
+            }
+        },
+        _ => return Err("unsupported kind".into()),
+    }
+    Ok(w)
+}
+
+fn has_dword(args: &[u8], d: u32) -> bool { args.chunks_exact(4).any(|c| c == d.to_le_bytes()) }
+fn dword_at(args: &[u8], k: usize) -> Option<u32> { args.get(4 * k..4 * k + 4).map(|c| u32::from_le_bytes([c[0], c[1], c[2], c[3]])) }
+
+// =============================================================================================
+// the comparison
+
+#[derive(Clone, Debug)]
+struct Finding { kind: &'static str, class: String, detail: Value }
+
+#[derive(Clone, Debug, Default)]
+struct CaseResult {
+    compiled: bool,
+    facts: u64,
+    features: BTreeSet<&'static str>,
+    findings: Vec<Finding>,
+    discard: Option<String>,
+    machinery: Vec<String>,
+    nontrivial: bool,
+    dbg: Option<Value>,
+    bytes: Option<Vec<u8>>,
+}
+
+fn first_error_line(diag: &str) -> String {
+    diag.lines().find(|l| l.starts_with("error") || l.starts_with("bug")).unwrap_or("<no error line>")
+        .chars().map(|c| if c.is_ascii_digit() { 'N' } else { c }).take(70).collect()
+}
+
+fn dbg_script_fragment(ds: &Value) -> Value {
+    json!({
+        "exported-as": ds["exported-as"], "name": ds["name"], "end-offset": ds["end-offset"],
+        "instr-offsets": ds["instrs"].as_array().map(|a| a.iter().map(|i| i["offset"].clone()).collect::<Vec<_>>()),
+        "labels": ds["labels"].as_array().map(|a| a.iter().map(|l| json!([l["name"], l["offset"], l["time"]])).collect::<Vec<_>>()),
+        "locals": ds["locals"].as_array().map(|a| a.iter().map(|l| json!([l["name"], l["type"], l["bound-to"]["reg"]])).collect::<Vec<_>>()),
+    })
+}
+fn file_script_facts(fs: &FScript) -> Value {
+    json!({
+        "script_start_in_file": fs.start, "terminal_at": fs.terminal,
+        "instrs(rel_offset,size,time,opcode,difficulty)": fs.instrs.iter().map(|i| json!([i.offset - fs.start, i.size, i.time, i.opcode, i.difficulty])).collect::<Vec<_>>(),
+    })
+}
+
+fn corrupt_debug_info(dbg: &mut Value) {
+    if let Some(s) = dbg["exported-scripts"].as_array_mut().and_then(|a| a.first_mut()) {
+        let shifted = match s["instrs"].as_array_mut().and_then(|a| a.last_mut()) {
+            Some(last) => { let o = last["offset"].as_u64().unwrap_or(0); last["offset"] = json!(o + 4); true },
+            None => false,
+        };
+        if !shifted { let e = s["end-offset"].as_u64().unwrap_or(0); s["end-offset"] = json!(e + 4); }
+    }
+}
+
+fn check_case(case: &Case, corrupt: bool) -> CaseResult {
+    let mut r = CaseResult::default();
+    let out = drive::compile(case.tool, case.src.as_bytes(), &CompileOpts { debug_info: true, ..Default::default() });
+    if let Some(p) = &out.panic { r.discard = Some(format!("panic:{}", p.signature())); return r; }
+    let (bytes, dbg_text) = match (out.bytes, out.debug_info) {
+        (Some(b), Some(d)) => (b, d),
+        _ => { r.discard = Some(format!("compile-error:{}", first_error_line(&out.diag))); return r; },
+    };
+    r.compiled = true;
+    let mut dbg: Value = match serde_json::from_str(&dbg_text) { Ok(v) => v, Err(e) => { r.machinery.push(format!("debug info is not JSON: {e}")); return r; } };
+    r.dbg = Some(dbg.clone());
+    if corrupt { corrupt_debug_info(&mut dbg); }
+    let walked = match walk_file(case.tool, &bytes) {
+        Ok(w) => w,
+        Err(e) => { r.machinery.push(format!("M2 walker failed on the written {} file: {e}; src: {}", case.tool.name(), case.src)); r.bytes = Some(bytes); return r; },
+    };
+    r.bytes = Some(bytes);
+    compare(case, &dbg, &walked, &mut r);
+    r
+}
+
+fn compare(case: &Case, dbg: &Value, walked: &Walked, r: &mut CaseResult) {
+    let empty = vec![];
+    let dscripts = dbg["exported-scripts"].as_array().unwrap_or(&empty);
+    if dscripts.len() != case.scripts.len() {
+        r.findings.push(Finding { kind: "instr-count", class: "script-count".into(), detail: json!({"message": format!("debug info lists {} scripts, the source has {}", dscripts.len(), case.scripts.len())}) });
+    }
+    r.facts += 1;
+    let mut sizes_vary = false;
+    for sm in &case.scripts {
+        let Some(ds) = dscripts.iter().find(|d| d["name"] == sm.name.as_str()) else {
+            r.findings.push(Finding { kind: "instr-count", class: "script-missing".into(), detail: json!({"message": format!("no debug info for script {}", sm.name)}) });
+            continue;
+        };
+        // locate the script in the file by the generator's knowledge of the order
+        let fs: Option<&FScript> = match sm.skind.as_str() {
+            "anm" => walked.anm.get(sm.index),
+            "std" => walked.std.as_ref(),
+            "msg" => walked.msg.get(sm.index),
+            "sub" => walked.subs.get(sm.index),
+            "timeline" => walked.timelines.get(sm.index),
+            _ => None,
+        };
+        let Some(fs) = fs else { r.machinery.push(format!("script {} ({} {}) not found in the written file; src: {}", sm.name, sm.skind, sm.index, case.src)); continue; };
+        // the debug info's own statement of where the script went
+        let ea = &ds["exported-as"];
+        let identity_ok = match sm.skind.as_str() {
+            "anm" => ea["type"] == "anm-script" && ea["index"] == sm.index,
+            "std" => ea["type"] == "std-script",
+            "sub" => ea["type"] == "olde-ecl-sub" && ea["index"] == sm.index,
+            "timeline" => ea["type"] == "scl-script" && ea["index"] == sm.index,
+            "msg" => ea["type"] == "msg-script" && ea["indices"].as_array().map_or(false, |ix| !ix.is_empty() && ix.iter().all(|i| {
+                i.as_u64().and_then(|i| walked.msg_table.get(i as usize)).map_or(false, |&o| o as usize == fs.start)
+            })),
+            _ => false,
+        };
+        r.facts += 1;
+        if !identity_ok {
+            r.findings.push(Finding { kind: "script-identity", class: sm.skind.clone(), detail: json!({"message": format!("exported-as of {} does not designate the script's place in the file (expected {} #{})", sm.name, sm.skind, sm.index), "debug_info": dbg_script_fragment(ds), "m2": file_script_facts(fs), "msg_table": walked.msg_table}) });
+        }
+        check_script(case, sm, ds, fs, r);
+        if fs.instrs.iter().map(|i| i.size).collect::<BTreeSet<_>>().len() > 1 { sizes_vary = true; }
+        if fs.instrs.iter().any(|i| i.difficulty != 0xFF && i.difficulty.count_ones() < 4 && sm.skind == "sub") { r.features.insert("diff"); }
+    }
+    // consts
+    let dconsts = dbg["consts"].as_array().unwrap_or(&empty);
+    for k in &case.consts {
+        let hits: Vec<&Value> = dconsts.iter().filter(|c| c["name"] == k.name.as_str() && !c["name-span"].is_null()).collect();
+        r.facts += 1;
+        let frag = json!(hits);
+        if hits.len() != 1 {
+            r.findings.push(Finding { kind: "const-value", class: if hits.is_empty() { "missing".into() } else { "duplicated".into() }, detail: json!({"message": format!("const {} appears {} times in the debug info", k.name, hits.len()), "debug_info": frag}) });
+            continue;
+        }
+        let v = &hits[0]["value"];
+        let ok = if k.float {
+            let e = f32::from_bits(k.bits);
+            match v.get("float") { Some(Value::Null) => !e.is_finite(), Some(x) => x.as_f64().map_or(false, |x| (x as f32).to_bits() == k.bits), None => false }
+        } else {
+            v.get("int").and_then(|x| x.as_i64()) == Some(k.bits as i32 as i64)
+        };
+        if !ok {
+            let exp = if k.float { json!(f32::from_bits(k.bits)) } else { json!(k.bits as i32) };
+            r.findings.push(Finding { kind: "const-value", class: if k.float { "float-vs-M6".into() } else { "int-vs-M6".into() }, detail: json!({"message": format!("const {}: debug info value differs from the reference evaluator", k.name), "expected": exp, "debug_info": frag}) });
+        }
+    }
+    if !case.consts.is_empty() { r.features.insert("consts"); }
+    if sizes_vary { r.features.insert("sizes-vary"); }
+    if case.scripts.len() > 1 { r.features.insert("multi-script"); }
+    r.nontrivial = sizes_vary || !case.consts.is_empty() || case.scripts.iter().any(|s| !s.locals.is_empty() || s.events.iter().any(|e| matches!(e, Ev::Label { .. })));
+}
+
+fn check_script(case: &Case, sm: &ScriptM, ds: &Value, fs: &FScript, r: &mut CaseResult) {
+    let frag = || json!({"script": sm.name, "debug_info": dbg_script_fragment(ds), "m2": file_script_facts(fs)});
+    let empty = vec![];
+    let rel: Vec<u64> = fs.instrs.iter().map(|i| (i.offset - fs.start) as u64).collect();
+    let file_end: u64 = fs.instrs.iter().map(|i| i.size as u64).sum();
+    // M2 self-consistency (contiguity and the terminal position): a disagreement here is ours, not truth's
+    let mut cur = 0u64;
+    for (k, i) in fs.instrs.iter().enumerate() { if rel[k] != cur { r.machinery.push(format!("M2: instructions of {} are not contiguous", sm.name)); return; } cur += i.size as u64; }
+    if let Some(t) = fs.terminal { if (t - fs.start) as u64 != file_end { r.machinery.push(format!("M2: terminal of {} at {} but instruction sizes sum to {}; src: {}", sm.name, t - fs.start, file_end, case.src)); return; } }
+
+    // 1. instruction count and offsets
+    let doffs: Vec<Option<u64>> = ds["instrs"].as_array().unwrap_or(&empty).iter().map(|i| i["offset"].as_u64()).collect();
+    r.facts += 1;
+    if doffs.len() != rel.len() {
+        r.findings.push(Finding { kind: "instr-count", class: if doffs.len() > rel.len() { "debug-more".into() } else { "debug-fewer".into() }, detail: json!({"message": format!("debug info lists {} instructions, the file's script has {}", doffs.len(), rel.len()), "facts": frag()}) });
+    }
+    let mut diffs: Vec<(usize, i64)> = vec![];
+    for (k, (d, f)) in doffs.iter().zip(&rel).enumerate() {
+        r.facts += 1;
+        match d { Some(d) if d == f => {}, Some(d) => diffs.push((k, *d as i64 - *f as i64)), None => diffs.push((k, i64::MIN)) }
+    }
+    if let Some(&(k, d)) = diffs.first() {
+        let class = if diffs.iter().all(|x| x.1 == d) && diffs.len() == rel.len() - k { "shifted-from-some-instruction" } else if diffs.len() == 1 { "single-instruction" } else { "drifting" };
+        r.findings.push(Finding { kind: "instr-offset", class: class.into(), detail: json!({"message": format!("instrs[{k}].offset is {} but the instruction starts at {} in the written script", doffs[k].map_or(-1, |x| x as i64), rel[k]), "facts": frag()}) });
+    }
+    // 2. end offset
+    r.facts += 1;
+    let dend = ds["end-offset"].as_u64();
+    if dend != Some(file_end) {
+        r.findings.push(Finding { kind: "end-offset", class: if dend.map_or(false, |d| d > file_end) { "too-large".into() } else { "too-small".into() }, detail: json!({"message": format!("end-offset is {:?} but the script's instructions occupy {} bytes (terminal excluded)", dend, file_end), "facts": frag()}) });
+    }
+    // 3. labels
+    let boundaries: BTreeSet<u64> = rel.iter().copied().chain([file_end]).collect();
+    let dlabels = ds["labels"].as_array().unwrap_or(&empty);
+    for l in dlabels {
+        r.facts += 1;
+        let ok = l["offset"].as_u64().map_or(false, |o| boundaries.contains(&o));
+        if !ok {
+            r.findings.push(Finding { kind: "label-offset", class: "not-a-boundary".into(), detail: json!({"message": format!("label {} has offset {} which is neither an instruction start nor the end of the written script", l["name"], l["offset"]), "facts": frag()}) });
+        }
+    }
+    let first_with = |d: u32| fs.instrs.iter().position(|i| has_dword(&i.args, d));
+    let mut n_labels = 0;
+    for (ei, e) in sm.events.iter().enumerate() {
+        let Ev::Label { name, time } = e else { continue };
+        n_labels += 1;
+        let hits: Vec<&Value> = dlabels.iter().filter(|l| l["name"] == name.as_str()).collect();
+        r.facts += 1;
+        if hits.len() != 1 {
+            r.findings.push(Finding { kind: "label-offset", class: "label-missing".into(), detail: json!({"message": format!("label {name} appears {} times in the debug info", hits.len()), "facts": frag()}) });
+            continue;
+        }
+        let (Some(off), Some(dtime)) = (hits[0]["offset"].as_u64(), hits[0]["time"].as_i64()) else {
+            r.findings.push(Finding { kind: "label-offset", class: "malformed".into(), detail: json!({"message": format!("label {name} has no numeric offset/time"), "facts": frag()}) });
+            continue;
+        };
+        // time by M3
+        r.facts += 1;
+        if dtime != *time as i64 {
+            r.findings.push(Finding { kind: "label-time", class: "vs-M3".into(), detail: json!({"message": format!("label {name}: debug info time {dtime}, label arithmetic gives {time}"), "facts": frag()}) });
+        }
+        // position: the next emitting statement in source order
+        let mut time_between = false;
+        let mut next: Option<&Ev> = None;
+        for e2 in &sm.events[ei + 1..] {
+            match e2 { Ev::Time => time_between = true, Ev::Emit { .. } => { next = Some(e2); break; }, Ev::Label { .. } => {} }
+        }
+        let mut expected_pos: Option<u64> = None;
+        match next {
+            None => expected_pos = Some(file_end),
+            Some(Ev::Emit { dword, index }) => {
+                if let Some(k) = index { if let Some(&o) = rel.get(*k) { expected_pos = Some(o); } else { r.machinery.push(format!("model: instruction index {k} out of range in {}; src: {}", sm.name, case.src)); } }
+                if let Some(d) = dword {
+                    match first_with(*d) {
+                        Some(k) => { if expected_pos.map_or(false, |p| p != rel[k]) { r.machinery.push(format!("model: index and marker anchors disagree in {}; src: {}", sm.name, case.src)); } expected_pos = Some(rel[k]); },
+                        None => r.machinery.push(format!("model: marker {d:#x} not found in the written script {}; src: {}", sm.name, case.src)),
+                    }
+                }
+            },
+            _ => unreachable!(),
+        }
+        r.facts += 1;
+        match expected_pos {
+            Some(p) => if off != p {
+                r.findings.push(Finding { kind: "label-offset", class: if next.is_none() { "label-at-end".into() } else { "vs-following-statement".into() }, detail: json!({"message": format!("label {name}: debug info offset {off}, but the statement that follows it in the source starts at {p} in the written script"), "facts": frag()}) });
+            },
+            None => if next.is_some() && off >= file_end && boundaries.contains(&off) {
+                r.findings.push(Finding { kind: "label-offset", class: "at-end-but-code-follows".into(), detail: json!({"message": format!("label {name}: debug info offset {off} is the end of the script, but statements follow the label"), "facts": frag()}) });
+            },
+        }
+        // lower bound: the last anchored statement before the label
+        let prev = sm.events[..ei].iter().rev().find_map(|e| if let Ev::Emit { dword: Some(d), .. } = e { Some(*d) } else { None });
+        if let Some(d) = prev {
+            if let Some(k) = first_with(d) {
+                r.facts += 1;
+                if off < rel[k] + fs.instrs[k].size as u64 {
+                    r.findings.push(Finding { kind: "label-offset", class: "before-preceding-statement".into(), detail: json!({"message": format!("label {name}: debug info offset {off} lies before the end of a statement that precedes it in the source ({})", rel[k] + fs.instrs[k].size as u64), "facts": frag()}) });
+                }
+            }
+        }
+        // stored time of the instruction at that offset
+        if !time_between && next.is_some() {
+            if let Some(k) = rel.iter().position(|&o| o == off) {
+                let fits = !sm.time16 || (*time >= i16::MIN as i32 && *time <= i16::MAX as i32);
+                if fits {
+                    r.facts += 1;
+                    if fs.instrs[k].time as i64 != dtime {
+                        r.findings.push(Finding { kind: "label-time", class: "vs-stored-instruction-time".into(), detail: json!({"message": format!("label {name}: time {dtime}, but the instruction at its offset {off} is stored with time {} and no time label separates them", fs.instrs[k].time), "facts": frag()}) });
+                    }
+                }
+            }
+        }
+    }
+    if n_labels > 0 { r.features.insert("labels"); }
+    // 4. locals
+    let dlocals = ds["locals"].as_array().unwrap_or(&empty);
+    for l in &sm.locals {
+        r.features.insert("locals");
+        let hits: Vec<&Value> = dlocals.iter().filter(|d| d["name"] == l.name.as_str()).collect();
+        r.facts += 1;
+        if hits.len() != 1 {
+            r.findings.push(Finding { kind: "local-register", class: "local-missing".into(), detail: json!({"message": format!("local {} appears {} times in the debug info", l.name, hits.len()), "facts": frag()}) });
+            continue;
+        }
+        let setters: Vec<&m2::Instr> = fs.instrs.iter().filter(|i| dword_at(&i.args, 1) == Some(l.sentinel)).collect();
+        if setters.len() != 1 { r.machinery.push(format!("model: {} instructions set the sentinel of {} in {}; src: {}", setters.len(), l.name, sm.name, case.src)); continue; }
+        let d0 = dword_at(&setters[0].args, 0).unwrap();
+        let file_reg: Option<i64> = if l.reg_as_float {
+            let f = f32::from_bits(d0);
+            if f.is_finite() && f.fract() == 0.0 { Some(f as i64) } else { None }
+        } else { Some(d0 as i32 as i64) };
+        let dreg = hits[0]["bound-to"]["reg"].as_i64();
+        if dreg.is_none() || dreg != file_reg {
+            r.findings.push(Finding { kind: "local-register", class: if l.float { "float-local".into() } else { "int-local".into() }, detail: json!({"message": format!("local {}: debug info register {:?}, but the instruction storing its initial value {} writes register {:?} (first argument dword {:#x})", l.name, dreg, if l.float { format!("{}", f32::from_bits(l.sentinel)) } else { format!("{}", l.sentinel) }, file_reg, d0), "facts": frag()}) });
+        }
+    }
+    // 5b. the value of a const as used in the emitted code
+    for (k, cname, float) in &sm.const_uses {
+        let Some(ins) = fs.instrs.get(*k) else { r.machinery.push(format!("model: const use index {k} out of range; src: {}", case.src)); continue; };
+        let Some(used) = dword_at(&ins.args, 1) else { r.machinery.push(format!("model: const use instruction has no second dword; src: {}", case.src)); continue; };
+        if let Some(km) = case.consts.iter().find(|c| &c.name == cname) {
+            r.facts += 1;
+            if km.bits != used && !(*float && f32::from_bits(km.bits).is_nan() && f32::from_bits(used).is_nan()) {
+                r.findings.push(Finding { kind: "const-value", class: "used-in-file-vs-M6".into(), detail: json!({"message": format!("const {cname}: the emitted instruction uses {used:#x}, the reference evaluator gives {:#x}", km.bits), "facts": frag()}) });
+            }
+        }
+    }
+}
+
+// =============================================================================================
+// generator: languages, nodes, rendering, flattening (M3)
+
+#[derive(Clone, Copy, PartialEq, Eq, Debug)]
+enum Lang { Anm12, Anm06, Std06, Std10, Msg06, Msg08, Msg12, EclSub, Timeline }
+
+impl Lang {
+    fn regs(self) -> bool { matches!(self, Lang::Anm12 | Lang::EclSub) }
+    fn jumps(self) -> bool { matches!(self, Lang::Anm12 | Lang::Anm06 | Lang::Std06 | Lang::Std10 | Lang::EclSub) }
+    fn diff(self) -> bool { self == Lang::EclSub }
+    fn text(self) -> bool { matches!(self, Lang::Msg06 | Lang::Msg08 | Lang::Msg12) }
+    fn skind(self) -> &'static str {
+        match self { Lang::Anm12 | Lang::Anm06 => "anm", Lang::Std06 | Lang::Std10 => "std", Lang::Msg06 | Lang::Msg08 | Lang::Msg12 => "msg", Lang::EclSub => "sub", Lang::Timeline => "timeline" }
+    }
+    fn time16(self, game: Game) -> bool {
+        match self { Lang::Anm12 | Lang::Anm06 | Lang::Msg06 | Lang::Msg08 | Lang::Msg12 => true, Lang::Timeline => matches!(game, Game::Th06 | Game::Th07), _ => false }
+    }
+}
+
+fn hex_dwords(ds: &[u32]) -> String { ds.iter().map(|d| d.to_le_bytes().iter().map(|b| format!("{b:02x}")).collect::<String>()).collect::<Vec<_>>().join(" ") }
+
+fn marker_src(lang: Lang, id: u32, extra: usize) -> String {
+    let mut ds = vec![id];
+    let extra = if lang == Lang::Std06 { 2 } else { extra };
+    for j in 0..extra { ds.push(0x0EEE_0000 + j as u32); }
+    let blob = hex_dwords(&ds);
+    match lang {
+        Lang::Anm12 => format!("ins_3(@blob=\"{blob}\");"),
+        Lang::Anm06 => format!("ins_1(@blob=\"{blob}\");"),
+        Lang::Std06 => format!("ins_0(@blob=\"{blob}\");"),
+        Lang::Std10 => format!("ins_2(@blob=\"{blob}\");"),
+        Lang::Msg06 | Lang::Msg08 | Lang::Msg12 => format!("ins_4(@blob=\"{blob}\");"),
+        Lang::EclSub => format!("ins_35(@blob=\"{blob}\");"),
+        Lang::Timeline => format!("ins_10(@arg0=0, @blob=\"{blob}\");"),
+    }
+}
+
+fn text_src(lang: Lang, s: &str, ordinal: usize) -> String {
+    match lang {
+        Lang::Msg12 => format!("ins_{}(\"{s}\");", if ordinal % 2 == 0 { 16 } else { 17 }),
+        _ => format!("ins_3(0, 0, \"{s}\");"),
+    }
+}
+
+#[derive(Clone, Debug)]
+enum Node {
+    /// emits >= 1 instruction; `single`: exactly one
+    Stmt { text: String, dword: Option<u32>, single: bool },
+    /// emits nothing (a local const declaration)
+    Silent(String),
+    Label(String), TAbs(i32), TRel(i32),
+    Bare(Vec<Node>), Loop(Vec<Node>), If(String, Vec<Node>), Times(Vec<Node>),
+    Goto,
+}
+
+fn first_label(nodes: &[Node]) -> Option<String> {
+    for n in nodes {
+        match n {
+            Node::Label(l) => return Some(l.clone()),
+            Node::Bare(b) | Node::Loop(b) | Node::If(_, b) | Node::Times(b) => if let Some(l) = first_label(b) { return Some(l); },
+            _ => {},
+        }
+    }
+    None
+}
+
+fn render(nodes: &[Node], target: &Option<String>, ind: usize, out: &mut String) {
+    let pad = "    ".repeat(ind);
+    for n in nodes {
+        match n {
+            Node::Stmt { text, .. } | Node::Silent(text) => { out.push_str(&pad); out.push_str(text); out.push('\n'); },
+            Node::Label(l) => out.push_str(&format!("{l}:\n")),
+            Node::TAbs(t) => out.push_str(&format!("{t}:\n")),
+            Node::TRel(t) => out.push_str(&format!("+{t}:\n")),
+            Node::Goto => if let Some(t) = target { out.push_str(&format!("{pad}goto {t};\n")); },
+            Node::Bare(b) => { out.push_str(&format!("{pad}{{\n")); render(b, target, ind + 1, out); out.push_str(&format!("{pad}}}\n")); },
+            Node::Loop(b) => { out.push_str(&format!("{pad}loop {{\n")); render(b, target, ind + 1, out); out.push_str(&format!("{pad}}}\n")); },
+            Node::If(c, b) => { out.push_str(&format!("{pad}if ({c}) {{\n")); render(b, target, ind + 1, out); out.push_str(&format!("{pad}}}\n")); },
+            Node::Times(b) => { out.push_str(&format!("{pad}times(3) {{\n")); render(b, target, ind + 1, out); out.push_str(&format!("{pad}}}\n")); },
+        }
+    }
+}
+
+struct Flat { t: i32, events: Vec<Ev>, exact: bool, n: usize, has_target: bool }
+
+fn flatten(nodes: &[Node], f: &mut Flat) {
+    for n in nodes {
+        match n {
+            Node::Stmt { dword, single, .. } => {
+                f.events.push(Ev::Emit { dword: *dword, index: if f.exact { Some(f.n) } else { None } });
+                if *single { f.n += 1; } else { f.exact = false; }
+            },
+            Node::Silent(_) => {},
+            Node::Label(l) => f.events.push(Ev::Label { name: l.clone(), time: f.t }),
+            Node::TAbs(t) => { f.t = *t; f.events.push(Ev::Time); },
+            // M3: 32-bit wrap by explicit truncation of the 64-bit sum
+            Node::TRel(t) => { f.t = (f.t as i64 + *t as i64) as i32; f.events.push(Ev::Time); },
+            Node::Goto => if f.has_target { f.events.push(Ev::Emit { dword: None, index: if f.exact { Some(f.n) } else { None } }); f.n += 1; },
+            Node::Bare(b) => flatten(b, f),
+            Node::Loop(b) => { flatten(b, f); f.events.push(Ev::Emit { dword: None, index: None }); f.exact = false; },
+            Node::If(_, b) => { f.events.push(Ev::Emit { dword: None, index: None }); f.exact = false; flatten(b, f); },
+            Node::Times(b) => { f.events.push(Ev::Emit { dword: None, index: None }); f.exact = false; flatten(b, f); f.events.push(Ev::Emit { dword: None, index: None }); },
+        }
+    }
+}
+
+// ---------------------------------------------------------------------------------------------
+// skeletons
+
+#[derive(Clone, Debug)]
+enum Sk { M, D, X, P, G, B(Vec<Sk>), L(Vec<Sk>), I(Vec<Sk>), T(Vec<Sk>) }
+
+fn parse_sk(s: &str) -> Vec<Sk> {
+    fn go(toks: &mut std::iter::Peekable<std::str::SplitWhitespace>) -> Vec<Sk> {
+        let mut v = vec![];
+        while let Some(&t) = toks.peek() {
+            toks.next();
+            match t {
+                "M" => v.push(Sk::M), "D" => v.push(Sk::D), "X" => v.push(Sk::X), "P" => v.push(Sk::P), "G" => v.push(Sk::G),
+                "B{" => v.push(Sk::B(go(toks))), "L{" => v.push(Sk::L(go(toks))), "I{" => v.push(Sk::I(go(toks))), "T{" => v.push(Sk::T(go(toks))),
+                "}" => return v,
+                other => panic!("bad skeleton token {other}"),
+            }
+        }
+        v
+    }
+    go(&mut s.split_whitespace().peekable())
+}
+
+/// skeletons for languages with registers (ANM TH12, old ECL subs)
+const SK_REGS: &[&str] = &[
+    "M", "", "M M", "D M", "D X M", "L{ M }", "M L{ M M } M", "D B{ D X } D M", "D D B{ D X } D", "I{ M } M", "D I{ X M } M",
+    "T{ M } M", "D T{ D M } D", "L{ I{ M } M }", "B{ D B{ D X } D } D", "D X D X D", "M G M", "L{ M G }", "D D D X", "B{ } M", "D L{ D X } X",
+];
+const SK_REGS_THOROUGH: &[&str] = &[
+    "D B{ D B{ D X } X } D X", "I{ D T{ M } } D M", "L{ D } L{ D } D", "D X B{ D X } B{ D X } D", "T{ I{ M } } G", "M M M M", "D I{ D } D I{ D } D",
+];
+/// extra skeletons using difficulty switches (ECL subs only)
+const SK_DIFF: &[&str] = &["D P M", "D P", "D L{ P } M", "D I{ P } M", "D P P", "D B{ D P } D M"];
+/// languages with jumps but no registers (ANM TH06, STD)
+const SK_JUMPS: &[&str] = &["M", "", "M M", "L{ M }", "M L{ M M } M", "M G M", "L{ M G }", "B{ M } M", "B{ } M", "L{ L{ M } M }", "M M M"];
+/// straight-line languages (MSG, timelines)
+const SK_FLAT: &[&str] = &["M", "", "M M", "M M M", "M B{ M } M", "M M M M"];
+
+const TEXT_LETTERS: &str = "abcdefghi";
+
+struct Inst<'c, 'p> {
+    ch: &'c mut Chooser<'p>,
+    lang: Lang,
+    game: Game,
+    prefix: String,
+    marker_base: u32,
+    n_marker: u32,
+    n_label: u32,
+    n_local: u32,
+    n_diff: u32,
+    scope: Vec<Vec<(String, bool)>>,
+    locals: Vec<LocalM>,
+    /// no choices at all (fixed companion scripts)
+    frozen: bool,
+    /// length of the first text (full product over 0..=9 in the MSG family)
+    len0: Option<usize>,
+}
+
+impl<'c, 'p> Inst<'c, 'p> {
+    fn pick(&mut self, n: usize) -> usize { if self.frozen { 0 } else { self.ch.pick(n) } }
+    fn time32(&self) -> bool { !self.lang.time16(self.game) }
+    fn reg_as_float(&self, float: bool) -> bool {
+        // how a register id is stored in the output slot of the assignment instruction
+        float && match self.lang { Lang::Anm12 => true, Lang::EclSub => self.game != Game::Th06, _ => false }
+    }
+    fn label(&mut self) -> Node { self.n_label += 1; Node::Label(format!("{}L{}", self.prefix, self.n_label)) }
+    fn slot(&mut self, out: &mut Vec<Node>) {
+        let n_alts = if self.time32() { 10 } else { 8 };
+        match self.pick(n_alts) {
+            0 => {},
+            1 => out.push(self.label()),
+            2 => { out.push(self.label()); out.push(self.label()); },
+            3 => out.push(Node::TRel(5)),
+            4 => out.push(Node::TAbs(10)),
+            5 => { out.push(self.label()); out.push(Node::TRel(5)); },
+            6 => { out.push(Node::TRel(3)); out.push(self.label()); },
+            7 => { out.push(self.label()); out.push(Node::TAbs(20)); out.push(self.label()); },
+            8 => out.push(Node::TRel(2147483647)),
+            _ => { out.push(self.label()); out.push(Node::TRel(2147483647)); out.push(self.label()); },
+        }
+    }
+    fn find_var(&self, float: bool) -> Option<String> {
+        self.scope.iter().rev().flat_map(|s| s.iter().rev()).find(|v| v.1 == float).map(|v| v.0.clone())
+    }
+    fn find_vars(&self, float: bool) -> Vec<String> {
+        self.scope.iter().rev().flat_map(|s| s.iter().rev()).filter(|v| v.1 == float).map(|v| v.0.clone()).collect()
+    }
+    fn marker(&mut self) -> Node {
+        let k = self.n_marker; self.n_marker += 1;
+        let id = self.marker_base + k;
+        if self.lang.text() {
+            // texts of varying length; alternative: furigana-style text / blob marker
+            let default_len = if k == 0 { self.len0.unwrap_or(3) } else { (3 + 2 * k as usize) % 10 };
+            let alt = self.pick(4);
+            let (len, furi) = match alt { 0 => (default_len, false), 1 => ((default_len + 1) % 10, false), 2 => (default_len.max(1), true), _ => return Node::Stmt { text: marker_src(self.lang, id, (k as usize) % 3), dword: Some(id), single: true } };
+            let s = if furi { format!("|{}", &TEXT_LETTERS[..len - 1]) } else { TEXT_LETTERS[..len].to_string() };
+            return Node::Stmt { text: text_src(self.lang, &s, k as usize), dword: None, single: true };
+        }
+        let alt = self.pick(3);
+        Node::Stmt { text: marker_src(self.lang, id, (k as usize + alt) % 3), dword: Some(id), single: true }
+    }
+    fn decl(&mut self) -> Node {
+        let float = self.pick(2) == 1;
+        let k = self.n_local; self.n_local += 1;
+        let name = format!("{}v{}", self.prefix, k);
+        let (sentinel, lit) = if float { let f = (7101 + k) as f32; (f.to_bits(), format!("{f:.1}")) } else { (7001 + k, format!("{}", 7001 + k)) };
+        self.scope.last_mut().unwrap().push((name.clone(), float));
+        self.locals.push(LocalM { name: name.clone(), float, sentinel, reg_as_float: self.reg_as_float(float) });
+        Node::Stmt { text: format!("{} {name} = {lit};", if float { "float" } else { "int" }), dword: Some(sentinel), single: true }
+    }
+    fn expr(&mut self) -> Node {
+        let ints = self.find_vars(false);
+        let floats = self.find_vars(true);
+        if let Some(a) = ints.first() {
+            let b = ints.get(1).unwrap_or(a);
+            let text = if self.pick(2) == 0 { format!("{a} = ({a} * 2) + ({b} * 3);") } else { format!("{a} = (({a} + {b}) * ({a} - 4)) + ({b} * {a});") };
+            Node::Stmt { text, dword: None, single: false }
+        } else if let Some(a) = floats.first() {
+            Node::Stmt { text: format!("{a} = ({a} * 2.0) + ({a} * 3.0);"), dword: None, single: false }
+        } else { self.marker() }
+    }
+    fn diff(&mut self) -> Node {
+        let Some(a) = self.find_var(false) else { return self.marker(); };
+        let base = 8100 + 4 * self.n_diff; self.n_diff += 1;
+        let text = match self.pick(3) { 0 => format!("{a} = {}:{}:{}:{};", base, base + 1, base + 2, base + 3), 1 => format!("{a} = {}:{};", base, base + 1), _ => format!("{a} = {}::{}:{};", base, base + 2, base + 3) };
+        Node::Stmt { text, dword: Some(base), single: false }
+    }
+    fn cond(&self) -> String {
+        if let Some(a) = self.find_var(false) { format!("{a} == 3") }
+        else if let Some(f) = self.find_var(true) { format!("{f} == 3.0") }
+        else { match (self.lang, self.game) { (Lang::EclSub, Game::Th06) => "$REG[-10004] == 3".into(), _ => "$REG[10003] == 3".into() } }
+    }
+    fn block(&mut self, sk: &[Sk]) -> Vec<Node> {
+        let mut out = vec![];
+        self.scope.push(vec![]);
+        for s in sk { self.slot(&mut out); let n = self.stmt(s); out.push(n); }
+        self.slot(&mut out);
+        self.scope.pop();
+        out
+    }
+    fn stmt(&mut self, s: &Sk) -> Node {
+        match s {
+            Sk::M => self.marker(),
+            Sk::D => self.decl(),
+            Sk::X => self.expr(),
+            Sk::P => self.diff(),
+            Sk::G => Node::Goto,
+            Sk::B(b) => Node::Bare(self.block(b)),
+            Sk::L(b) => Node::Loop(self.block(b)),
+            Sk::I(b) => { let c = self.cond(); Node::If(c, self.block(b)) },
+            Sk::T(b) => Node::Times(self.block(b)),
+        }
+    }
+}
+
+/// A rendered script + its model.
+struct BuiltScript { header: String, body: String, model: ScriptM }
+
+struct ScriptSpec<'a> { lang: Lang, name: &'a str, index: usize, prefix: &'a str, marker_base: u32, sk: &'a [Sk], frozen: bool, params: usize, const_use: Option<(&'a str, bool)>, local_consts: Vec<String>, len0: Option<usize> }
+
+fn build_script(ch: &mut Chooser, game: Game, sp: &ScriptSpec) -> BuiltScript {
+    let mut inst = Inst { ch, lang: sp.lang, game, prefix: sp.prefix.to_string(), marker_base: sp.marker_base, n_marker: 0, n_label: 0, n_local: 0, n_diff: 0, scope: vec![vec![]], locals: vec![], frozen: sp.frozen, len0: sp.len0 };
+    let mut pre: Vec<Node> = vec![];
+    let mut const_uses = vec![];
+    let mut params_src = vec![];
+    // a const read into a fresh local: the very first instruction of the script
+    if let Some((cname, float)) = sp.const_use {
+        let v = format!("{}u", sp.prefix);
+        pre.push(Node::Stmt { text: format!("{} {v} = {cname};", if float { "float" } else { "int" }), dword: None, single: true });
+        inst.scope[0].push((v, float));
+        const_uses.push((0usize, cname.to_string(), float));
+    }
+    // sub parameters: assigned a sentinel so that the register the emitted code uses for them is visible
+    for p in 0..sp.params {
+        let float = p == 1;
+        let name = format!("{}p{}", sp.prefix, p);
+        let (sentinel, lit) = if float { let f = (7151 + p) as f32; (f.to_bits(), format!("{f:.1}")) } else { (7051 + p as u32, format!("{}", 7051 + p)) };
+        params_src.push(format!("{} {name}", if float { "float" } else { "int" }));
+        pre.push(Node::Stmt { text: format!("{name} = {lit};"), dword: Some(sentinel), single: true });
+        inst.scope[0].push((name.clone(), float));
+        let raf = inst.reg_as_float(float);
+        inst.locals.push(LocalM { name, float, sentinel, reg_as_float: raf });
+    }
+    for c in &sp.local_consts { pre.push(Node::Silent(c.clone())); }
+    let mut nodes = pre;
+    nodes.extend(inst.block(sp.sk));
+    let locals = inst.locals;
+    let target = first_label(&nodes);
+    let mut body = String::new();
+    render(&nodes, &target, 1, &mut body);
+    let mut f = Flat { t: 0, events: vec![], exact: true, n: 0, has_target: target.is_some() };
+    flatten(&nodes, &mut f);
+    let header = match sp.lang { Lang::EclSub => format!("void {}({})", sp.name, params_src.join(", ")), _ => format!("script {}", sp.name) };
+    BuiltScript { header, body, model: ScriptM { name: sp.name.to_string(), skind: sp.lang.skind().to_string(), index: sp.index, events: f.events, locals, const_uses, time16: sp.lang.time16(game) } }
+}
+
+// ---------------------------------------------------------------------------------------------
+// file assembly
+
+const ANM_ENTRY: &str = "entry {\n    path: \"subdir/fileN.png\",\n    has_data: false,\n    img_width: 8, img_height: 4, img_format: 3,\n    sprites: { spriteN: {id: N, x: 0.0, y: 0.0, w: 16.0, h: 16.0} },\n}\n";
+const STD06_META: &str = "meta {\n    unknown: 7,\n    stage_name: \"dm\",\n    bgm: [ {path: \"a\", name: \"dm\"}, {path: \"b\", name: \"dn\"}, {path: \" \", name: \" \"}, {path: \" \", name: \"x\"} ],\n    objects: {},\n    instances: [],\n}\n";
+const STD10_META: &str = "meta {\n    unknown: 7,\n    anm_path: \"stage01.anm\",\n    objects: {},\n    instances: [],\n}\n";
+
+fn script_text(b: &BuiltScript) -> String { format!("{} {{\n{}}}\n", b.header, b.body) }
+
+/// `scripts`: in file order; `entry_breaks`: ANM only, indices of scripts that start a new entry (0 always implied).
+/// `msg_extra_ref`: MSG only, an extra table row referring to script 0 again.
+fn assemble(tool: Tool, consts_src: &str, scripts: &[&BuiltScript], timelines: &[&BuiltScript], entry_breaks: &[usize], msg_extra_ref: bool) -> String {
+    let mut s = String::new();
+    match tool.kind {
+        Kind::Anm => {
+            s += &ANM_ENTRY.replace('N', "0");
+            s += consts_src;
+            for (k, b) in scripts.iter().enumerate() {
+                if k > 0 && entry_breaks.contains(&k) { s += &ANM_ENTRY.replace('N', &k.to_string()); }
+                s += &script_text(b);
+            }
+        },
+        Kind::Std => {
+            s += if m2::std_is_06_format(tool.game) { STD06_META } else { STD10_META };
+            s += consts_src;
+            s += &script_text(scripts[0]);
+        },
+        Kind::Msg => {
+            let mut rows: Vec<String> = scripts.iter().enumerate().map(|(k, b)| format!("{k}: {{script: \"{}\"}}", b.model.name)).collect();
+            if msg_extra_ref { rows.push(format!("{}: {{script: \"{}\"}}", scripts.len() + 1, scripts[0].model.name)); }
+            s += &format!("meta {{ table: {{ {} }} }}\n", rows.join(", "));
+            s += consts_src;
+            for b in scripts { s += &script_text(b); }
+        },
+        Kind::Ecl => {
+            s += consts_src;
+            for b in timelines { s += &script_text(b); }
+            for b in scripts { s += &script_text(b); }
+        },
+        _ => unreachable!(),
+    }
+    s
+}
+
+fn sub_lang(tool: Tool) -> Lang {
+    match (tool.kind, tool.game) {
+        (Kind::Anm, Game::Th06) => Lang::Anm06, (Kind::Anm, _) => Lang::Anm12,
+        (Kind::Std, g) => if m2::std_is_06_format(g) { Lang::Std06 } else { Lang::Std10 },
+        (Kind::Msg, Game::Th06) => Lang::Msg06, (Kind::Msg, Game::Th08) => Lang::Msg08, (Kind::Msg, _) => Lang::Msg12,
+        (Kind::Ecl, _) => Lang::EclSub,
+        _ => unreachable!(),
+    }
+}
+
+/// consts that truth defines automatically for script / sub / sprite names (M9: position in file order)
+fn auto_consts(tool: Tool, scripts: &[&BuiltScript], entry_breaks: &[usize]) -> Vec<ConstM> {
+    let mut v = vec![];
+    match tool.kind {
+        Kind::Anm => {
+            for (k, b) in scripts.iter().enumerate() { v.push(ConstM { name: b.model.name.clone(), float: false, bits: k as u32 }); }
+            v.push(ConstM { name: "sprite0".into(), float: false, bits: 0 });
+            for &k in entry_breaks { if k > 0 { v.push(ConstM { name: format!("sprite{k}"), float: false, bits: k as u32 }); } }
+        },
+        Kind::Ecl => for (k, b) in scripts.iter().enumerate() { v.push(ConstM { name: b.model.name.clone(), float: false, bits: k as u32 }); },
+        _ => {},
+    }
+    v
+}
+
+/// Family (a)/(b)/(c): one enumerated script A (skeleton `sk`, language `lang`) inside a file layout.
+fn gen_body_case(ch: &mut Chooser, tool: Tool, lang: Lang, sk: &[Sk], sk_text: &str, len0: Option<usize>) -> Case {
+    let game = tool.game;
+    // layout: which companion scripts surround A
+    let n_layouts = match (tool.kind, lang) { (Kind::Std, _) => 1, (Kind::Ecl, Lang::Timeline) => if game == Game::Th06 { 1 } else { 3 }, (Kind::Anm, _) => 4, _ => 3 };
+    let layout = ch.pick(n_layouts);
+    let params = if lang == Lang::EclSub { ch.pick(3) } else { 0 };
+    let spec_a = |index: usize| ScriptSpec { lang, name: "scrA", index, prefix: "a", marker_base: 0x5A5A_0000, sk, frozen: false, params, const_use: None, local_consts: vec![], len0 };
+    let main_lang = sub_lang(tool);
+    // companion scripts are built from explicit nodes so that they always contain labels
+    let companion = |name: &str, l: Lang, index: usize, prefix: &str, base: u32| -> BuiltScript {
+        let mut nodes: Vec<Node> = vec![];
+        let mut locals = vec![];
+        if l.regs() {
+            let nm = format!("{prefix}q"); let sentinel = 7090 + (base & 0xFF);
+            nodes.push(Node::Stmt { text: format!("int {nm} = {sentinel};"), dword: Some(sentinel), single: true });
+            locals.push(LocalM { name: nm, float: false, sentinel, reg_as_float: false });
+        }
+        let stmt = |k: u32, extra: usize| -> Node {
+            if l.text() { Node::Stmt { text: text_src(l, &TEXT_LETTERS[..(2 + 3 * k as usize) % 10], k as usize), dword: None, single: true } }
+            else { Node::Stmt { text: marker_src(l, base + k, extra), dword: Some(base + k), single: true } }
+        };
+        nodes.push(stmt(0, 1));
+        nodes.push(Node::Label(format!("{prefix}Qa")));
+        nodes.push(Node::TRel(7));
+        nodes.push(stmt(1, 0));
+        nodes.push(Node::Label(format!("{prefix}Qb")));
+        let mut body = String::new();
+        render(&nodes, &None, 1, &mut body);
+        let mut f = Flat { t: 0, events: vec![], exact: true, n: 0, has_target: false };
+        flatten(&nodes, &mut f);
+        let header = if l == Lang::EclSub { format!("void {name}()") } else { format!("script {name}") };
+        BuiltScript { header, body, model: ScriptM { name: name.to_string(), skind: l.skind().to_string(), index, events: f.events, locals, const_uses: vec![], time16: l.time16(game) } }
+    };
+    let mut scripts: Vec<BuiltScript> = vec![];
+    let mut timelines: Vec<BuiltScript> = vec![];
+    let mut entry_breaks: Vec<usize> = vec![0];
+    let mut msg_extra = false;
+    if tool.kind == Kind::Ecl && lang == Lang::Timeline {
+        // subs: one companion; timelines: layout 0 = [A], 1 = [F, A], 2 = [A, F]
+        scripts.push(companion("subF", Lang::EclSub, 0, "f", 0x5B5B_0000));
+        match layout {
+            0 => timelines.push(build_script(ch, game, &spec_a(0))),
+            1 => { timelines.push(companion("tlF", Lang::Timeline, 0, "g", 0x5C5C_0000)); timelines.push(build_script(ch, game, &spec_a(1))); },
+            _ => { timelines.push(build_script(ch, game, &spec_a(0))); timelines.push(companion("tlF", Lang::Timeline, 1, "g", 0x5C5C_0000)); },
+        }
+    } else {
+        if tool.kind == Kind::Ecl { timelines.push(companion("tlF", Lang::Timeline, 0, "g", 0x5C5C_0000)); }
+        match (tool.kind, layout) {
+            (_, 0) => scripts.push(build_script(ch, game, &spec_a(0))),
+            (_, 1) => { scripts.push(companion("scrF", main_lang, 0, "f", 0x5B5B_0000)); scripts.push(build_script(ch, game, &spec_a(1))); },
+            (Kind::Anm, 2) => { scripts.push(build_script(ch, game, &spec_a(0))); scripts.push(companion("scrG", main_lang, 1, "h", 0x5D5D_0000)); entry_breaks.push(1); },
+            (Kind::Anm, _) => { scripts.push(companion("scrF", main_lang, 0, "f", 0x5B5B_0000)); scripts.push(build_script(ch, game, &spec_a(1))); scripts.push(companion("scrG", main_lang, 2, "h", 0x5D5D_0000)); entry_breaks.push(1); },
+            (_, _) => { scripts.push(build_script(ch, game, &spec_a(0))); scripts.push(companion("scrG", main_lang, 1, "h", 0x5D5D_0000)); msg_extra = tool.kind == Kind::Msg; },
+        }
+    }
+    let srefs: Vec<&BuiltScript> = scripts.iter().collect();
+    let trefs: Vec<&BuiltScript> = timelines.iter().collect();
+    let src = assemble(tool, "", &srefs, &trefs, &entry_breaks, msg_extra);
+    let consts = auto_consts(tool, &srefs, &entry_breaks);
+    let mut models: Vec<ScriptM> = vec![];
+    // debug info order = compile order; the model order is irrelevant (matched by name)
+    for b in timelines { models.push(b.model); }
+    for b in scripts { models.push(b.model); }
+    Case { family: format!("body:{}:{}:[{}]:layout{}", tool.name(), lang.skind(), sk_text, layout), tool, src, scripts: models, consts }
+}
+
+// ---------------------------------------------------------------------------------------------
+// family (d): consts (M6)
+
+#[derive(Clone, Debug)]
+enum CE { I(i32), F(f32), Ref(usize), Bin(&'static str, Box<CE>, Box<CE>), Un(&'static str, Box<CE>), ToInt(Box<CE>), ToFloat(Box<CE>) }
+
+const C_INTS: [i32; 7] = [2, 7, -3, 65536, 2147483647, 0, 33];
+const C_FLOATS: [f32; 5] = [1.5, -0.25, 3.0, 1.0e10, 0.1];
+const C_IOPS: [&str; 11] = ["+", "-", "*", "<<", ">>", ">>>", "&", "|", "^", "%", "/"];
+const C_FOPS: [&str; 4] = ["+", "*", "-", "/"];
+
+fn lit_i(x: i32) -> String { if x < 0 { format!("(-{})", (x as i64).unsigned_abs()) } else { x.to_string() } }
+fn lit_f(x: f32) -> String { let mut s = format!("{}", x.abs()); if !s.contains('.') { s.push_str(".0"); } if x < 0.0 { format!("(-{s})") } else { s } }
+
+fn ce_render(e: &CE, names: &[String]) -> String {
+    match e {
+        CE::I(x) => lit_i(*x), CE::F(x) => lit_f(*x), CE::Ref(j) => names[*j].clone(),
+        CE::Bin(op, a, b) => format!("({} {op} {})", ce_render(a, names), ce_render(b, names)),
+        CE::Un(op, a) => format!("({op}{})", ce_render(a, names)),
+        CE::ToInt(a) => format!("int({})", ce_render(a, names)),
+        CE::ToFloat(a) => format!("float({})", ce_render(a, names)),
+    }
+}
+
+/// M6 evaluation; `float`: the static type of `e`.  None = undefined (division by zero).
+fn ce_eval(e: &CE, float: bool, defs: &[(bool, CE)]) -> Option<Val> {
+    Some(match e {
+        CE::I(x) => Val::I(*x), CE::F(x) => Val::F(*x),
+        CE::Ref(j) => ce_eval(&defs[*j].1, defs[*j].0, defs)?,
+        CE::Bin(op, a, b) => m1_binop(op, float, &ce_eval(a, float, defs)?, &ce_eval(b, float, defs)?)?,
+        CE::Un(op, a) => m1_unop(op, float, &ce_eval(a, float, defs)?)?,
+        CE::ToInt(a) => Val::I(ce_eval(a, true, defs)?.as_int()),
+        CE::ToFloat(a) => Val::F(ce_eval(a, false, defs)?.as_int() as f32),
+    })
+}
+
+fn gen_ce(ch: &mut Chooser, float: bool, depth: u32, i: usize, types: &[bool]) -> CE {
+    let later: Vec<usize> = (i + 1..types.len()).collect();
+    // alternatives: 0 literal (default) | other literals | refs to later consts | operators
+    let n_lits = if float { C_FLOATS.len() } else { C_INTS.len() };
+    let n_ops = if depth == 0 { 0 } else if float { C_FOPS.len() + 1 } else { C_IOPS.len() + 2 };
+    let k = ch.pick(n_lits + later.len() + n_ops);
+    if k < n_lits { return if float { CE::F(C_FLOATS[k]) } else { CE::I(C_INTS[k]) }; }
+    let k = k - n_lits;
+    if k < later.len() {
+        let j = later[k];
+        return if types[j] == float { CE::Ref(j) } else if float { CE::ToFloat(Box::new(CE::Ref(j))) } else { CE::ToInt(Box::new(CE::Ref(j))) };
+    }
+    let k = k - later.len();
+    if float {
+        if k < C_FOPS.len() { let a = gen_ce(ch, true, depth - 1, i, types); let b = gen_ce(ch, true, depth - 1, i, types); CE::Bin(C_FOPS[k], Box::new(a), Box::new(b)) }
+        else { CE::Un("-", Box::new(gen_ce(ch, true, depth - 1, i, types))) }
+    } else {
+        if k < C_IOPS.len() { let a = gen_ce(ch, false, depth - 1, i, types); let b = gen_ce(ch, false, depth - 1, i, types); CE::Bin(C_IOPS[k], Box::new(a), Box::new(b)) }
+        else if k == C_IOPS.len() { CE::Un("-", Box::new(gen_ce(ch, false, depth - 1, i, types))) }
+        else { CE::Un("~", Box::new(gen_ce(ch, false, depth - 1, i, types))) }
+    }
+}
+
+const PERMS3: [[usize; 3]; 6] = [[0, 1, 2], [2, 1, 0], [1, 0, 2], [0, 2, 1], [1, 2, 0], [2, 0, 1]];
+
+/// None = the generated const set is undefined (division by zero): not a compilable program by construction
+fn gen_const_case(ch: &mut Chooser, tool: Tool, depth: u32) -> Option<Case> {
+    let game = tool.game;
+    let lang = sub_lang(tool);
+    let n = 1 + ch.pick(3);
+    let types: Vec<bool> = (0..n).map(|_| ch.pick(2) == 1).collect();
+    let names: Vec<String> = (0..n).map(|i| format!("K{i}")).collect();
+    let mut defs: Vec<(bool, CE)> = vec![];
+    for i in 0..n { let e = gen_ce(ch, types[i], depth, i, &types); defs.push((types[i], e)); }
+    let order: Vec<usize> = match n { 1 => vec![0], 2 => if ch.pick(2) == 0 { vec![0, 1] } else { vec![1, 0] }, _ => PERMS3[ch.pick(6)].to_vec() };
+    // placement: all at file level | the last-declared one inside the script body
+    let local_last = ch.pick(2) == 1;
+    let decl = |i: usize| format!("const {} {} = {};", if types[i] { "float" } else { "int" }, names[i], ce_render(&defs[i].1, &names));
+    let mut file_level = String::new();
+    let mut local_consts = vec![];
+    for (pos, &i) in order.iter().enumerate() {
+        if local_last && pos == order.len() - 1 { local_consts.push(decl(i)); } else { file_level += &decl(i); file_level.push('\n'); }
+    }
+    let mut consts = vec![];
+    for i in 0..n {
+        let v = ce_eval(&defs[i].1, types[i], &defs)?;
+        consts.push(ConstM { name: names[i].clone(), float: types[i], bits: match v { Val::I(x) => x as u32, Val::F(x) => x.to_bits() } });
+    }
+    let sk = parse_sk("M");
+    let const_use = if lang.regs() { Some((names[0].as_str(), types[0])) } else { None };
+    let a = build_script(ch, game, &ScriptSpec { lang, name: "scrA", index: 0, prefix: "a", marker_base: 0x5A5A_0000, sk: &sk, frozen: true, params: 0, const_use, local_consts, len0: None });
+    let mut timelines = vec![];
+    if tool.kind == Kind::Ecl {
+        let tsk = parse_sk("M");
+        timelines.push(build_script(ch, game, &ScriptSpec { lang: Lang::Timeline, name: "tlF", index: 0, prefix: "g", marker_base: 0x5C5C_0000, sk: &tsk, frozen: true, params: 0, const_use: None, local_consts: vec![], len0: None }));
+    }
+    let srefs = vec![&a];
+    let trefs: Vec<&BuiltScript> = timelines.iter().collect();
+    let src = assemble(tool, &file_level, &srefs, &trefs, &[0], false);
+    consts.extend(auto_consts(tool, &srefs, &[0]));
+    let mut models: Vec<ScriptM> = timelines.iter().map(|b| b.model.clone()).collect();
+    models.push(a.model.clone());
+    Some(Case { family: format!("consts:{}", tool.name()), tool, src, scripts: models, consts })
+}
+
+// =============================================================================================
+// enumeration
+
+fn tools() -> Vec<Tool> {
+    vec![
+        Tool::new(Kind::Anm, Game::Th12), Tool::new(Kind::Anm, Game::Th06),
+        Tool::new(Kind::Ecl, Game::Th06), Tool::new(Kind::Ecl, Game::Th07), Tool::new(Kind::Ecl, Game::Th08),
+        Tool::new(Kind::Msg, Game::Th06), Tool::new(Kind::Msg, Game::Th08), Tool::new(Kind::Msg, Game::Th12),
+        Tool::new(Kind::Std, Game::Th08), Tool::new(Kind::Std, Game::Th12),
+    ]
+}
+
+struct GenStats { generated: u64, capped: bool, undefined_consts: u64 }
+
+fn enumerate_cases(thorough: bool) -> (Vec<Case>, GenStats) {
+    let mut cases: Vec<Case> = vec![];
+    let mut seen: BTreeSet<(Tool, String)> = BTreeSet::new();
+    let mut stats = GenStats { generated: 0, capped: false, undefined_consts: 0 };
+    let scale: u64 = std::env::var("VERIF_C18_CAP").ok().and_then(|s| s.parse().ok()).unwrap_or(if thorough { 60_000 } else { 2_500 });
+    let bound_regs = if thorough { 3 } else { 2 };
+    for tool in tools() {
+        let main = sub_lang(tool);
+        let mut jobs: Vec<(Lang, String, Option<usize>, u32)> = vec![];
+        match tool.kind {
+            Kind::Anm | Kind::Ecl if main.regs() => {
+                for s in SK_REGS { jobs.push((main, s.to_string(), None, bound_regs)); }
+                if thorough { for s in SK_REGS_THOROUGH { jobs.push((main, s.to_string(), None, bound_regs)); } }
+                if main.diff() { for s in SK_DIFF { jobs.push((main, s.to_string(), None, bound_regs)); } }
+                if tool.kind == Kind::Ecl { for s in SK_FLAT { jobs.push((Lang::Timeline, s.to_string(), None, bound_regs)); } }
+            },
+            Kind::Anm | Kind::Std => for s in SK_JUMPS { jobs.push((main, s.to_string(), None, bound_regs + 1)); },
+            Kind::Msg => for s in SK_FLAT { for len0 in 0..10 { jobs.push((main, s.to_string(), Some(len0), bound_regs)); } },
+            _ => {},
+        }
+        for (lang, sk_text, len0, bound) in jobs {
+            let sk = parse_sk(&sk_text);
+            let st = explore_dfs(bound, scale, &|ch| gen_body_case(ch, tool, lang, &sk, &sk_text, len0), &mut |_, c| {
+                stats.generated += 1;
+                if seen.insert((c.tool, c.src.clone())) { cases.push(c); }
+            });
+            if st.capped { stats.capped = true; }
+        }
+        // (d) consts
+        let (cb, cd) = if thorough { (4, 2) } else { (3, 2) };
+        let st = explore_dfs(cb, scale * 4, &|ch| gen_const_case(ch, tool, cd), &mut |_, c| {
+            stats.generated += 1;
+            match c { Some(c) => if seen.insert((c.tool, c.src.clone())) { cases.push(c); }, None => stats.undefined_consts += 1 }
+        });
+        if st.capped { stats.capped = true; }
+    }
+    (cases, stats)
+}
+
+// =============================================================================================
+// driver-vs-CLI conformance
+
+fn cli_conformance(case: &Case, n: usize, inproc: &CaseResult) -> Result<(), String> {
+    let dir = drive::scratch_dir().join(format!("c18-{n}"));
+    std::fs::create_dir_all(&dir).map_err(|e| e.to_string())?;
+    let (inp, outp, js) = (dir.join("in.spec"), dir.join("out.bin"), dir.join("out.json"));
+    std::fs::write(&inp, &case.src).map_err(|e| e.to_string())?;
+    let mut args = case.tool.cli("compile");
+    args.extend([inp.display().to_string(), "-o".into(), outp.display().to_string(), "--output-debug-info".into(), js.display().to_string()]);
+    let out = drive::run_cli(&args, &[]);
+    let r = (|| {
+        if !inproc.compiled {
+            return if out.status == 0 { Err(format!("CLI compiled a program the in-process driver rejected ({:?})", inproc.discard)) } else { Ok(()) };
+        }
+        if out.status != 0 { return Err(format!("CLI failed (status {}) on a program the in-process driver compiled: {}", out.status, String::from_utf8_lossy(&out.stderr).lines().next().unwrap_or(""))); }
+        let bytes = std::fs::read(&outp).map_err(|e| format!("no CLI output file: {e}"))?;
+        if Some(&bytes) != inproc.bytes.as_ref() { return Err("CLI and in-process drivers wrote different binaries".into()); }
+        let text = std::fs::read_to_string(&js).map_err(|e| format!("no CLI debug info: {e}"))?;
+        let mut v: Value = serde_json::from_str(&text).map_err(|e| format!("CLI debug info is not JSON: {e}"))?;
+        let inp_s = inp.display().to_string();
+        if let Some(files) = v["source-files"].as_array_mut() { for f in files { if f["name"] == inp_s.as_str() { f["name"] = json!("<input>"); } } }
+        if Some(&v) != inproc.dbg.as_ref() { return Err(format!("CLI and in-process debug info differ: cli={} inproc={}", v, inproc.dbg.as_ref().map(|d| d.to_string()).unwrap_or_default())); }
+        Ok(())
+    })();
+    let _ = std::fs::remove_dir_all(&dir);
+    r.map_err(|e| format!("{e}; format {}; src: {}", case.tool.name(), case.src))
+}
+
+// =============================================================================================
+// run / replay
+
+pub fn run(tier: &str) -> Report {
+    let mut rep = Report::new("C18", tier, "model_checking");
+    let thorough = rep.is_thorough();
+    let deadline = rep.deadline();
+    let corrupt = std::env::var("VERIF_C18_SELFTEST_CORRUPT").map_or(false, |v| v == "1");
+    let (cases, stats) = enumerate_cases(thorough);
+    rep.transitions = stats.generated;
+    rep.states = cases.len() as u64;
+    if stats.capped { rep.cap_hit = Some("generator cap reached for at least one skeleton".into()); }
+    if stats.undefined_consts > 0 { rep.discarded.insert("generator:const-set-undefined-by-M6(division by zero)".into(), stats.undefined_consts); }
+    if std::env::var("VERIF_C18_DUMP").is_ok() {
+        for c in cases.iter().step_by((cases.len() / 40).max(1)) { println!("---- {} ----\n{}", c.family, c.src); }
+    }
+    let results = par_map(&cases, Some(deadline), |_, c| check_case(c, corrupt));
+
+    // driver-vs-CLI conformance on the first 32 cases of every format
+    let mut per_fmt_seen: BTreeMap<String, usize> = BTreeMap::new();
+    let mut cli_jobs: Vec<usize> = vec![];
+    for (i, c) in cases.iter().enumerate() {
+        let n = per_fmt_seen.entry(c.tool.name()).or_insert(0);
+        if *n < 32 && results[i].is_some() { *n += 1; cli_jobs.push(i); }
+    }
+    let cli_results = par_map(&cli_jobs, Some(deadline), |_, &i| cli_conformance(&cases[i], i, results[i].as_ref().unwrap()));
+    let mut cli_ok = 0u64;
+    for r in cli_results.into_iter().flatten() {
+        rep.evaluations += 1;
+        match r { Ok(()) => cli_ok += 1, Err(e) => if rep.machinery_errors.len() < 10 { rep.machinery_errors.push(format!("driver-vs-CLI: {e}")); } }
+    }
+    rep.extra.insert("cli_conformance_cases_identical".into(), json!(cli_ok));
+
+    let mut best: BTreeMap<String, (usize, Value)> = BTreeMap::new();
+    let mut counts: BTreeMap<String, u64> = BTreeMap::new();
+    let mut per_format: BTreeMap<String, (u64, u64, u64)> = BTreeMap::new();
+    let mut n_machinery = 0u64;
+    let mut not_run = 0u64;
+    for (i, r) in results.into_iter().enumerate() {
+        let c = &cases[i];
+        let Some(r) = r else { not_run += 1; continue; };
+        rep.evaluations += 1;
+        let fmt = c.tool.name();
+        let pf = per_format.entry(fmt.clone()).or_insert((0, 0, 0));
+        pf.0 += 1;
+        for m in &r.machinery { n_machinery += 1; if rep.machinery_errors.len() < 10 { rep.machinery_errors.push(m.clone()); } }
+        if let Some(d) = &r.discard { rep.discard(&format!("{fmt}:{d}")); rep.outcome(&format!("{fmt}:not-compilable")); continue; }
+        pf.1 += 1; pf.2 += r.facts;
+        rep.traces_validated += r.facts;
+        if r.nontrivial { rep.nontrivial += 1; }
+        let feats = if r.features.is_empty() { "plain".to_string() } else { r.features.iter().copied().collect::<Vec<_>>().join("+") };
+        rep.outcome(&format!("{fmt}:{}:{feats}", if r.findings.is_empty() { "agree" } else { "VIOLATION" }));
+        if i % 997 == 0 || (rep.samples.len() < 3 && r.nontrivial) { rep.sample(json!({"family": c.family, "src": c.src, "facts_compared": r.facts})); }
+        for f in &r.findings {
+            let sig = format!("C18:{fmt}:{}:{}", f.kind, f.class);
+            *counts.entry(sig.clone()).or_insert(0) += 1;
+            let better = best.get(&sig).map_or(true, |b| c.src.len() < b.0);
+            if better {
+                let mut d = case_to_json(c);
+                d["finding"] = json!({"kind": f.kind, "class": f.class, "info": f.detail});
+                best.insert(sig, (c.src.len(), d));
+            }
+        }
+    }
+    if not_run > 0 { rep.cap_hit = Some(format!("wall cap: {not_run} of {} cases not run", cases.len())); }
+    if n_machinery > 10 { rep.machinery_errors.push(format!("... {} machinery errors in total", n_machinery)); }
+    for (sig, (_, d)) in best { rep.fail(sig, d); }
+    rep.extra.insert("failure_counts".into(), json!(counts));
+    rep.extra.insert("per_format(cases,compiled,facts)".into(), json!(per_format.iter().map(|(k, v)| (k.clone(), json!([v.0, v.1, v.2]))).collect::<BTreeMap<_, _>>()));
+    rep.extra.insert("selftest_corrupt".into(), json!(corrupt));
+    rep.exhaustive = true;
+    rep.bound_completed = format!(
+        "formats: ANM th12/th06, ECL th06/th07/th08 (subs + timelines), MSG th06/th08/th12, STD th08/th12; per format every skeleton of the fixed lists x file layouts (1-3 scripts, 2 ANM entries, ECL timelines) x sub parameter lists x E-DFS with <= {} deviations ({} for register-less ANM/STD) over slot contents (none | label | 2 labels | +N: | N: | label,+N: | +N:,label | label,N:,label | 32-bit wrapping +N:), statement variants (blob sizes, text lengths 0..9, furigana-style texts, int/float locals, expression shapes, difficulty-switch shapes); consts: 1-3 consts, int/float, expression depth 2 over {} int / {} float operators, references and casts, every declaration order, file-level or script-level, <= {} deviations",
+        if thorough { 3 } else { 2 }, if thorough { 4 } else { 3 }, C_IOPS.len() + 2, C_FOPS.len() + 1, if thorough { 4 } else { 3 });
+    rep.rule = "instruction sizes in some script of the written file are not all equal, or >= 1 local / label / const is present".into();
+    rep.assumptions = vec![
+        "offsets in the debug info are relative to the script's first instruction (the property's 'in the output script'; the schema says 'Byte offset into script')".into(),
+        "end-offset = bytes occupied by the script's instructions, EXCLUDING the format's terminal instruction (schema: 'from the first instruction to the position after the last instruction'); M2 confirms the terminal starts exactly there".into(),
+        "an instruction replicated per difficulty is reported once per emitted copy (instrs has one entry per instruction in the file)".into(),
+        "a label's offset must be the start of the first instruction of the statement that follows it in the source (or the end offset if none follows); when the following construct has no uniquely recognisable first instruction only 'instruction boundary' and ordering are required".into(),
+        "a label's time is compared with the stored time of the instruction at its offset only if no time label separates them and the time fits the layout's time field".into(),
+        "the register of a local is read from the first argument dword of the unique instruction whose second argument dword is the local's sentinel; ids are stored as ints, except float locals in ANM and in ECL th07/th08 (stored as the float of the id)".into(),
+        "M2 walkers, M3 (i64 sum truncated to 32 bits), M6 = tl::m1_binop/m1_unop; script/sub/sprite name consts = position in file order (M9)".into(),
+        "compiler-generated labels (@loop#..) and temporaries (tempN) in the document are only required to sit on instruction boundaries; their registers are not checked".into(),
+    ];
+    rep.explanation = "every enumerated program is compiled by the real pipeline with debug info; the JSON is compared fact by fact with the written binary as parsed by M2 and with the generator's models; a bounded prefix per format is also compiled by the real CLI with --output-debug-info and must give the identical binary and JSON".into();
+    rep
+}
+
+pub fn replay(detail: &Value) -> i32 {
+    let Some(case) = case_from_json(detail) else { println!("cannot parse the stored case"); return 2; };
+    let corrupt = std::env::var("VERIF_C18_SELFTEST_CORRUPT").map_or(false, |v| v == "1");
+    println!("format {}\n---- source ----\n{}----------------", case.tool.name(), case.src);
+    let r = check_case(&case, corrupt);
+    if let Some(d) = &r.discard { println!("not compilable now: {d}"); return 0; }
+    for m in &r.machinery { println!("MACHINERY: {m}"); }
+    if let Some(d) = &r.dbg { for s in d["exported-scripts"].as_array().into_iter().flatten() { println!("debug info: {}", dbg_script_fragment(s)); } }
+    println!("facts compared: {}", r.facts);
+    let want = detail["finding"]["kind"].as_str().unwrap_or("");
+    let mut still = false;
+    for f in &r.findings {
+        println!("FINDING {}:{}: {}", f.kind, f.class, f.detail["message"].as_str().unwrap_or(""));
+        if let Some(m2f) = f.detail.get("facts") { println!("   m2: {}", m2f["m2"]); }
+        if f.kind == want || want.is_empty() { still = true; }
+    }
+    if r.findings.is_empty() { println!("debug info agrees with the written file"); }
+    if !r.machinery.is_empty() && !still { return 2; }
+    if still { 1 } else { 0 }
+}
